@@ -21,6 +21,7 @@ struct cl_msg {
 };
 
 struct client {
+	bool used;
 	int cid;
 	enum cl_kind kind;
 	size_t consumed;       /* bytes of daemon output already decoded */
